@@ -48,6 +48,7 @@ ASSUMPTIONS = [
 MIN_COUNTERS = {
     'quick': {'lift_method_evaluations': 5000, 'lift_builtin_evaluations': 5000,
               'lift_value_agreements': 6000, 'law_samples': 20000,
+              'law_exact_tie': 1500,
               'stream_history_pulls_compared': 20000,
               'reentrant_function_calls_compared': 3000,
               'concurrent_function_calls_compared': 3000,
@@ -60,6 +61,7 @@ MIN_COUNTERS = {
     'thorough': {'lift_method_evaluations': 600000,
                  'lift_builtin_evaluations': 600000,
                  'lift_value_agreements': 800000, 'law_samples': 3000000,
+                 'law_exact_tie': 50000,
                  'stream_history_pulls_compared': 1000000,
                  'reentrant_function_calls_compared': 100000,
                  'concurrent_function_calls_compared': 100000,
@@ -1041,6 +1043,10 @@ def run_laws(spec, acc):
             acc.count('law_inverse_' + args['pair'])
         if 'op' in args:
             acc.count('law_op_' + args['op'])
+        if law == 'exact':
+            acc.count('law_exact_' + str(args.get('class', 'other')).split('/')[0])
+            if 'via' in args:
+                acc.count('law_exact_via_' + args['via'])
         acc.case(h64((law, repr(sorted(args.items())))), nontrivial=True)
         if bad:
             lawname = bad[2] if len(bad) > 2 else law
